@@ -616,8 +616,14 @@ package rcmgr
 //@         (forall j int :: 0 <= j && j < len(old(s.edges)) ==> (old(s.edges[j]).done ==> same6(&old(s.edges[j]).rc)))
 //@ ensures result != nil && (!old(s.isAllowlisted) || s.isAllowlisted) ==> s.peer == old(s.peer) && edgesSame(s.resourceScope) &&
 //@         (forall x *resourceScope :: !fresh(x) ==> same6(&x.rc) && x.refCnt == old(x.refCnt))
-//@ ensures result != nil && old(s.isAllowlisted) && !s.isAllowlisted ==> s.peer == nil &&
-//@         (forall j int :: 0 <= j && j < len(old(s.edges)) ==> released(old(s.edges[j]), s.resourceScope)) &&
+//@ ensures result != nil && old(s.isAllowlisted) && !s.isAllowlisted ==> s.peer == nil
+//@ ensures result != nil && old(s.isAllowlisted) && !s.isAllowlisted ==>
+//@         (forall j int :: 0 <= j && j < len(old(s.edges)) ==> old(s.edges[j]).refCnt == old(old(s.edges[j]).refCnt) - 1)
+//@ ensures result != nil && old(s.isAllowlisted) && !s.isAllowlisted ==>
+//@         (forall j int :: 0 <= j && j < len(old(s.edges)) ==> (!old(s.edges[j]).done ==> minusOf(old(s.edges[j]), s.resourceScope)))
+//@ ensures result != nil && old(s.isAllowlisted) && !s.isAllowlisted ==>
+//@         (forall j int :: 0 <= j && j < len(old(s.edges)) ==> (old(s.edges[j]).done ==> same6(&old(s.edges[j]).rc)))
+//@ ensures result != nil && old(s.isAllowlisted) && !s.isAllowlisted ==>
 //@         (len(s.edges) == 0 || (len(s.edges) == 2 && s.edges[0] == s.rcmgr.system.resourceScope && s.edges[1] == s.rcmgr.transient.resourceScope &&
 //@            plusOf(s.rcmgr.system.resourceScope, s.resourceScope) && plusOf(s.rcmgr.transient.resourceScope, s.resourceScope)))
 //@ ensures same6(&s.resourceScope.rc)
